@@ -4,6 +4,18 @@ import json, os
 V = os.path.dirname(os.path.dirname(os.path.abspath(__file__)))
 
 CHECKS = {
+ "C04": dict(cat="model_checking", ref="DESIGN.md section 5 C04",
+   text="TLA+ module Bech32 defines BIP-173 validity declaratively and as the staged decoder; TLC checks their equality, unique spelling and re-encoding on the exhaustive one-edit closure of all checksum-correct short strings; TLC generates strings for every symbol count/padding pattern/boundary, the real Decode replays them, and TLC (evaluating the real polymod and regrouping) validates every recorded Decode call incl. Unicode case-mapping inputs, offsets and panics. Exhaustive on the bounded model, sampled at real size.",
+   note="Trusted: TLC/SANY/CommunityModules, Go toolchain. The edit-closure model is bounded (HRP <= 2 chars, <= 2-3 symbols); real-size behaviour is bound by generated and seeded traces.",
+   tech="explicit TLA+ spec + TLC exhaustive edit-closure model + TLC-generated strings replayed + trace validation"),
+ "C05": dict(cat="model_checking", ref="DESIGN.md section 5 C05",
+   text="Same Bech32 specification: Encode defined in TLA+, round trip and unique spelling model-checked on the bounded model; TLC-chosen (hrp,data) for every data length and both sides of the 90-character limit are replayed and every recorded Encode call plus the real Decode of its output is validated by TLC.",
+   note="Trusted: TLC/SANY/CommunityModules, Go toolchain. Real-size inputs are generated/sampled, not exhaustive.",
+   tech="explicit TLA+ spec + TLC model + generated vectors + trace validation of Encode and the real round trip"),
+ "C16": dict(cat="model_checking", ref="DESIGN.md section 5 C16",
+   text="Complete design-level proof by TLC state counting: every error pattern of weight <=2 in the 89-symbol window is a state whose VIEW is its syndrome, and the distinct-state count equals the pattern count (3 766 036), hence no substitution error of weight 1..4 is undetected for the specification's generator constants. Bound to the code by trace validation: real polymod on all unit vectors and random vectors equals the specification's; real Decode rejects all weight-1, many weight-2 and sampled weight-3/4 substitutions (incl. same-kind HRP substitutions).",
+   note="Trusted: TLC fingerprinting (collision probability ~1e-7 reported by TLC), the meet-in-the-middle argument in BchDistance.tla, Go toolchain. The equality of the real polymod with the specification's is established on unit vectors (linear basis) and samples.",
+   tech="TLA+ BchDistance: syndrome distinctness by TLC distinct-state count (complete) + trace validation of polymod and Decode"),
  "C14": dict(cat="model_checking", ref="DESIGN.md section 5 C14",
    text="TLA+ module B1T defines both codecs; TLC checks them exhaustively at real size (all 256 bytes, all 729 b1t6 and 6561 b1t8 groups, all trit strings up to a bound: staged decoder = declarative definition, bijection onto 256 code words); TLC writes the complete tables, the real packages replay them, and TLC validates every recorded call (generated tables + seeded multi-group sequences). Complete for single groups, bounded/sampled for sequences.",
    note="Trusted: TLC/SANY/CommunityModules Json, Go toolchain, iota.go trinary helpers. Trits outside {-1,0,1} (documented undefined) are not generated.",
